@@ -75,3 +75,8 @@ pub uninterp spec fn trace<'a>(bytes: Seq<u8>) -> Seq<Tok<'a>>;
 // ASSUMED: nothing rendered, nothing traced
 pub broadcast axiom fn axiom_trace_empty<'a>()
     ensures #[trigger] trace::<'a>(Seq::<u8>::empty()) == Seq::<Tok<'a>>::empty();
+
+// rpki::rtr::server::PayloadSet: only named by a `use` inside SnapshotStream::next;
+// its one method `next` is extracted from `impl PayloadSet for SnapshotArcIter`
+// as an inherent method, so the trait itself is an empty marker here.
+pub trait PayloadSet { }
